@@ -10,7 +10,26 @@ use std::io::{BufRead, Write};
 use std::sync::atomic::Ordering;
 
 pub fn make_ctx(tier: Tier, seed: u64) -> Result<Ctx, String> {
-    Ok(Ctx { corpus: crate::corpus::load()?, models: Models::default(), tier, seed, verbose: false, cpu_scale: 1, parts: Default::default(), sites: Default::default(), c06_layout: None, rotation: None })
+    make_ctx_for("", tier, seed)
+}
+
+/// C07 and C08 add synthesized workbooks (a pure function of VERIF_SEED and their index) to the
+/// fixture corpus; C06 runs on real files only.
+pub fn make_ctx_for(prop: &str, tier: Tier, seed: u64) -> Result<Ctx, String> {
+    let mut corpus = crate::corpus::load()?;
+    if prop == "C07" || prop == "C08" {
+        let (nx, no) = match tier {
+            Tier::Quick => (16, 8),
+            Tier::Thorough => (160, 80),
+        };
+        for k in 0..nx + no {
+            let s = crate::prng::h3(seed, crate::prng::tag("synth"), k);
+            if let Some(fx) = crate::synth::make(&crate::synth::name_for(s, k >= nx)) {
+                corpus.push(fx);
+            }
+        }
+    }
+    Ok(Ctx { corpus, models: Models::default(), tier, seed, verbose: false, cpu_scale: 1, parts: Default::default(), sites: Default::default(), c06_layout: None, rotation: None, c07_sweep: None })
 }
 
 pub fn total_runs(prop: &str, ctx: &mut Ctx) -> Result<u64, String> {
@@ -57,7 +76,7 @@ fn emit(out: &mut impl Write, r: &RunResult) {
 pub fn worker_main(prop: &str, tier: Tier, seed: u64, verbose: bool) -> i32 {
     guard::install_panic_hook();
     guard::start_watchdog();
-    let mut ctx = match make_ctx(tier, seed) {
+    let mut ctx = match make_ctx_for(prop, tier, seed) {
         Ok(c) => c,
         Err(e) => {
             eprintln!("harness error: {}", e);
@@ -130,7 +149,7 @@ pub fn exec_spec_main(cpu_scale: i64) -> i32 {
 pub fn spec_main(prop: &str, tier: Tier, seed: u64, idx: u64, gen_only: bool) -> i32 {
     guard::install_panic_hook();
     guard::start_watchdog();
-    let mut ctx = match make_ctx(tier, seed) {
+    let mut ctx = match make_ctx_for(prop, tier, seed) {
         Ok(c) => c,
         Err(e) => {
             eprintln!("harness error: {}", e);
